@@ -1629,6 +1629,17 @@ class Interp:
             if isinstance(s, (list, tuple)):
                 return list(s) if name == "list" else tuple(s)
             raise Undecided("list()")
+        if name == "setattr" and isinstance(f, ast.Name) and len(args) == 3:
+            o, nm, val = ev(args[0]), ev(args[1]), ev(args[2])
+            if not isinstance(nm, str):
+                raise Undecided("setattr with a symbolic attribute name")
+            if isinstance(args[0], ast.Name) and args[0].id == "self" and o is self.env.get("self"):
+                self.selfattrs[self._mangle(nm)] = val  # the same store `self.<nm> = val` writes
+                return None
+            if isinstance(o, Obj):
+                o.attrs[nm] = val
+                return None
+            raise Undecided("setattr on an unmodelled object")
         if name == "getattr" and isinstance(f, ast.Name) and len(args) >= 2:
             o, nm = ev(args[0]), ev(args[1])
             if isinstance(o, Obj) and isinstance(nm, str):
